@@ -1,5 +1,5 @@
 (* C08 — the decision procedure of Spec.v holds on the model's own observations of every
-   history (whose reports carry update times), and is sound for the Prop. *)
+   history, and decides the Prop. *)
 From Coq Require Import List ZArith Bool Lia.
 From Verif Require Import Lib.SortX C08.Model C08.Spec C08.Proofs C08.Proofs_Drift.
 Import ListNotations.
@@ -31,16 +31,15 @@ Lemma gets_estimates n m :
 Proof. intro Hm. unfold estimates_of, get_est. now rewrite Hm. Qed.
 
 Lemma node_code_model cfg c k :
-  cache_ok cfg c -> metrics_timed c -> node_code cfg (alookup k c) (observe_node cfg c k) = 0.
+  cache_ok cfg c -> node_code cfg (alookup k c) (observe_node cfg c k) = 0.
 Proof.
-  intros Hc Ht. unfold observe_node, node_code.
+  intros Hc. unfold observe_node, node_code.
   destruct (alookup k c) as [n|] eqn:En; cbn [view_uids spec_uids no_uids]; [|reflexivity].
   rewrite (list_eqb_refl Z.eqb) by apply Z.eqb_refl. cbn [negb].
   cbn [spec_metric view_detail no_detail].
   destruct (n_metric n) as [m|] eqn:Em; [|reflexivity].
   pose proof (Hc _ _ En) as Hok.
-  assert (Hf : fresh_sums cfg n = n_sums n).
-  { apply (ninfo_fresh_equal cfg n m Hok Em). left. eapply Ht; eassumption. }
+  assert (Hf : fresh_sums cfg n = n_sums n) by apply (ninfo_fresh_equal cfg n m Hok Em).
   rewrite Hf, sums_eqb_refl. cbn [negb].
   destruct Hok as (_ & _ & Hs). destruct (Hs m Em) as [Hsum _].
   rewrite <- Hsum, sums_eqb_refl. cbn [negb].
@@ -49,10 +48,10 @@ Proof.
 Qed.
 
 Lemma nodes_code_model cfg c ks :
-  cache_ok cfg c -> metrics_timed c ->
+  cache_ok cfg c ->
   nodes_code cfg c ks (map (observe_node cfg c) ks) = 0.
 Proof.
-  intros Hc Ht. induction ks as [|k ks IH]; [reflexivity|].
+  intros Hc. induction ks as [|k ks IH]; [reflexivity|].
   cbn [map nodes_code]. now rewrite node_code_model, IH.
 Qed.
 
@@ -114,29 +113,19 @@ Qed.
 
 (* ------------------------------------------------------------------ whole histories *)
 Lemma code_from_model cfg ops c :
-  cache_ok cfg c -> metrics_timed c -> ops_timed ops = true ->
-  code_from cfg c ops (run_obs cfg c ops) = 0.
+  cache_ok cfg c -> code_from cfg c ops (run_obs cfg c ops) = 0.
 Proof.
-  revert c. induction ops as [|o ops IH]; intros c Hc Ht Ho; [reflexivity|].
-  cbn [ops_timed forallb] in Ho. apply andb_prop in Ho. destruct Ho as [Ho Hops].
+  revert c. induction ops as [|o ops IH]; intros c Hc; [reflexivity|].
   cbn [run_obs code_from].
   assert (Hc' : cache_ok cfg (step cfg c o)) by now apply step_ok.
-  assert (Ht' : metrics_timed (step cfg c o)) by now apply step_timed.
-  unfold observe at 1. rewrite (nodes_code_model cfg _ universe Hc' Ht'). cbn [Z.eqb negb].
+  unfold observe at 1. rewrite (nodes_code_model cfg _ universe Hc'). cbn [Z.eqb negb].
   rewrite op_code_model. cbn [Z.eqb negb].
   now apply IH.
 Qed.
 
-Lemma metrics_timed_nil : metrics_timed [].
-Proof. intros k n m H. discriminate. Qed.
-
-(* MAIN: on every history whose reports carry update times, the property's decision procedure
-   accepts the model's observations *)
-Lemma prop_code_model cfg ops :
-  ops_timed ops = true -> prop_code cfg ops (run_obs cfg [] ops) = 0.
-Proof.
-  intro H. unfold prop_code. apply code_from_model; [apply cache_ok_nil|apply metrics_timed_nil|exact H].
-Qed.
+(* MAIN: on EVERY history the property's decision procedure accepts the model's observations *)
+Lemma prop_code_model cfg ops : prop_code cfg ops (run_obs cfg [] ops) = 0.
+Proof. unfold prop_code. apply code_from_model, cache_ok_nil. Qed.
 
 (* ------------------------------------------------------------------ soundness of the codes *)
 Lemma node_code_sound cfg n o : node_code cfg n o = 0 -> node_ok cfg n o.
@@ -190,8 +179,8 @@ Qed.
 Lemma prop_code_sound cfg ops obs : prop_code cfg ops obs = 0 -> C08_holds cfg ops obs.
 Proof. apply code_from_sound. Qed.
 
-Lemma holds_model cfg ops : ops_timed ops = true -> C08_holds cfg ops (run_obs cfg [] ops).
-Proof. intro H. apply prop_code_sound, prop_code_model, H. Qed.
+Lemma holds_model cfg ops : C08_holds cfg ops (run_obs cfg [] ops).
+Proof. apply prop_code_sound, prop_code_model. Qed.
 
 (* ------------------------------------------------------------------ completeness of the codes *)
 Lemma node_code_complete cfg n o : node_ok cfg n o -> node_code cfg n o = 0.
